@@ -35,7 +35,8 @@ OUT_OF_BOUNDS = ['more than 3 threads', 'programs longer than the listed ones', 
 FUNCTIONS_ENCODED = ['building.py:_in_build', 'building.py:_BuildGuardState', 'history.py:_TrackingState',
                      'history.py:suspend_tracking', 'history.py:set_tracking', 'history.py:tracking_enabled',
                      'history.py:History.add_new_value', 'history.py:new_value', 'history.py:_set_counter',
-                     'signatures.py:get_signature', 'signatures.py:_signature_cache', 'daglish.py:MemoizedTraversal.apply']
+                     'signatures.py:get_signature', 'signatures.py:_signature_cache', 'signatures.py:get_type_hints',
+                     'daglish.py:MemoizedTraversal.apply']
 
 F_TOK, G_TOK, LEAF_TOK = 100, 101, 102
 
@@ -98,6 +99,9 @@ def _compile(program, mods):
       elif kind == 'read_flags':
         r = c.inline(h.funcs['tracking_enabled'], [], {}, h, 0)
         c.emit('obs', 'enabled', r, 0)
+      elif kind == 'hints':
+        r = c.inline(sg.funcs['get_type_hints'], [('const', st[1])], {'include_extras': ('const', 1)}, sg, 0)
+        c.emit('obs', st[2], r, 0)
       elif kind == 'traverse':
         dg = mods['daglish']
         c.inline(dg.method('MemoizedTraversal', 'apply'), [('global', '$trav'), ('const', st[1]), ('const', 0)], {}, dg, 0)
@@ -123,6 +127,9 @@ PROGRAMS = {
     # a memoized traversal reaching a leaf object that both threads' (disjoint) configurations contain: CPython shares
     # small ints, interned strings and None between unrelated structures
     'traverse_leaf': [('traverse', LEAF_TOK), ('read_flags',)],
+    # first-time type-hint lookups (tags come from Annotated hints): the same callable from two threads
+    'hints_f': [('hints', F_TOK, 'h1')],
+    'hints_fg': [('hints', G_TOK, 'h1'), ('hints', F_TOK, 'h2')],
 }
 
 QUICK_SYSTEMS = [('build', 'build'), ('build_nested', 'build'), ('build_nested', 'build_nested'), ('edit2', 'edit2'),
@@ -130,7 +137,7 @@ QUICK_SYSTEMS = [('build', 'build'), ('build_nested', 'build'), ('build_nested',
                  ('tracking_off_on', 'edit2'), ('tracking_off_on', 'suspend_edit'), ('suspend_edit', 'nested_suspend'), ('tracking_off_on', 'nested_suspend'),
                  ('sig_f', 'sig_g'), ('sig_fg', 'sig_g'),
                  ('sig_f', 'sig_f'), ('edit_sig', 'sig_g'), ('build', 'suspend_edit'), ('traverse_leaf', 'traverse_leaf'),
-                 ('traverse_leaf', 'build')]
+                 ('traverse_leaf', 'build'), ('hints_f', 'hints_f'), ('hints_f', 'hints_fg')]
 THOROUGH_EXTRA = [('build', 'build', 'build'), ('suspend_edit', 'edit2', 'edit2'), ('sig_f', 'sig_g', 'sig_fg'),
                   ('tracking_off_on', 'suspend_edit', 'edit2'), ('build_nested', 'build', 'suspend_edit'),
                   ('nested_suspend', 'nested_suspend'), ('edit_sig', 'edit_sig'), ('tracking_off_on', 'tracking_off_on')]
@@ -180,6 +187,11 @@ def _real_run(program, callables, cfg=None):
         obs[st[2]] = 1000 + (st[1] if st[1] in tok else (tok[0] if tok else 0))
       elif k == 'read_flags':
         obs['enabled'] = 1 if history.tracking_enabled() else 0
+      elif k == 'hints':
+        import typing
+        fn = callables[st[1]]
+        got = signatures.get_type_hints(fn, include_extras=True)
+        obs[st[2]] = 1000 + st[1] if got == typing.get_type_hints(fn, include_extras=True) and got else 0
       elif k == 'traverse':
         from fiddle import daglish
         leaf = 3                                # the same object in every thread (small ints are shared)
@@ -199,10 +211,10 @@ def _real_run(program, callables, cfg=None):
 
 
 def _fresh_callables():
-  def f(a, b=1):
+  def f(a: int, b: float = 1):
     return (a, b)
 
-  def g(c, *, d=2):
+  def g(c: str, *, d: int = 2):
     return (c, d)
 
   def leaf():
@@ -266,7 +278,7 @@ def _shared_state_inventory():
 CLASSIFIED = {
     'history.py:_set_counter': 'modelled (atomic counter)',
     'signatures.py:_signature_cache': 'modelled (lookup / compute / store)',
-    'signatures.py:_type_hints_cache': 'same pattern as _signature_cache (lookup / compute / store of a pure function of the key)',
+    'signatures.py:_type_hints_cache': 'modelled (hints programs)',
     'history.py:_exclude_locations': 'process-wide by design (add_exclude_location); not among the programs',
     'history.py:_location_provider': 'process-wide by design (custom_location); not among the programs',
     'daglish_extensions.py:_IMMUTABLE_OBJECT_IDS': 'registry written by explicit registration calls only',
@@ -432,7 +444,7 @@ def run_bmc(tier='quick'):
         if o is not None:
           loc = o[1] if o[0] in ('store', 'push') else o[2]
           lines.append((tid, o[0], '.'.join(map(str, loc)), o[-1]))
-      rep = _replay(names, lines, per_thread)
+      rep = _replay(names, lines, per_thread) or _replay(names, lines, per_thread, mode='completion')
       results.append(DirectResult(name, 'violated', f'K={K}: schedule of shared accesses (thread, op, location, line): {lines}; '
                                   f'observed {seen} vs alone {[{k: v for k, v in ob.items() if not k.startswith("final:")} for ob in per_thread]}',
                                   dt, model=dict(schedule=schedule[:K], accesses=lines, observed=seen), reproduced=rep,
@@ -444,7 +456,7 @@ def run_bmc(tier='quick'):
 
 # ----------------------------------------------------------------------------- replay on real threads
 
-def _replay(names, accesses, alone):
+def _replay(names, accesses, alone, mode='line'):
   """Runs the programs on real threads, enforcing the model's order of shared accesses (thread, source line).
 
   A thread may execute a scheduled line only when all earlier scheduled accesses have happened; all other lines run
@@ -452,11 +464,18 @@ def _replay(names, accesses, alone):
   import sys
   files = {'building': _repo() + '/fiddle/_src/building.py', 'history': _repo() + '/fiddle/_src/history.py',
            'signatures': _repo() + '/fiddle/_src/signatures.py', 'daglish': _repo() + '/fiddle/_src/daglish.py'}
+  class_file = {}
+  for short, m in _mods().items():
+    for cls in m.classes:
+      class_file[cls] = files[short]
   sched = []
   for tid, _, loc, line in accesses:
     mod = loc.split('.')[0]
-    if line:
-      sched.append((tid, files.get(mod), line))
+    fname = files.get(mod)
+    if mod == 'heap':
+      fname = class_file.get(loc.split('.')[1])         # fields of objects: the file that defines their class
+    if line and fname:
+      sched.append((tid, fname, line))
   # collapse consecutive duplicates (several micro-ops on one source line)
   dedup = []
   for e in sched:
@@ -485,9 +504,42 @@ def _replay(names, accesses, alone):
           return
         cv.wait(timeout=0.2)
 
+  # mode 'completion': second scheme, for lines whose access happens at the *end* of the line (a call inside the line
+  # runs other scheduled lines first, e.g. `x = cache[k] = Cls()`).  No order is imposed within a thread; a thread may
+  # start a scheduled line once every earlier entry of the *other* threads is complete, and an entry is complete when
+  # its thread has moved on to another line of the same frame (or left the frame).
+  state = [0] * len(sched)           # 0 pending, 1 started, 2 complete
+  frames = [None] * len(sched)
+
+  def gate2(tid, frame, event):
+    with cv:
+      fid = id(frame)
+      changed = False
+      for i, e in enumerate(sched):
+        if e[0] == tid and state[i] == 1 and frames[i] == fid and (event == 'return' or frame.f_lineno != e[2]):
+          state[i] = 2
+          changed = True
+      if changed:
+        cv.notify_all()
+      if event != 'line':
+        return
+      key = (tid, frame.f_code.co_filename, frame.f_lineno)
+      j = next((i for i, e in enumerate(sched) if e == key and state[i] == 0), None)
+      if j is None:
+        return
+      deadline = time.time() + 5
+      while any(sched[i][0] != tid and state[i] != 2 and sched[i][0] not in done for i in range(j)):
+        if time.time() > deadline:
+          break
+        cv.wait(timeout=0.2)
+      state[j], frames[j] = 1, fid
+
   def tracer_for(tid):
     def local(frame, event, arg):
-      if event == 'line':
+      if mode == 'completion':
+        if event in ('line', 'return'):
+          gate2(tid, frame, event)
+      elif event == 'line':
         gate(tid, frame.f_code.co_filename, frame.f_lineno)
       return local
 
